@@ -28,15 +28,15 @@
 -/
 namespace Rbgp.Fib
 
-/-- A prefix: family tag (0 = IPv4, 1 = IPv6, 2 = VPNv4) and an index. -/
+/-- A prefix: family tag (0 = IPv4, 1 = IPv6, 2 = VPNv4, 3 = VPNv6) and an index. -/
 structure Pfx where
   fam : Nat
   id : Nat
   deriving DecidableEq, Repr, Inhabited
 
 /-- VPN prefix as seen inside a VRF (`vpn_to_local_nlri`). -/
-def Pfx.local (p : Pfx) : Pfx := ⟨0, p.id⟩
-def Pfx.isVpn (p : Pfx) : Bool := p.fam == 2
+def Pfx.local (p : Pfx) : Pfx := ⟨if p.fam == 2 then 0 else 1, p.id⟩
+def Pfx.isVpn (p : Pfx) : Bool := p.fam == 2 || p.fam == 3
 
 abbrev Addr := Nat
 
@@ -51,13 +51,19 @@ structure Path where
   src : Nat          -- peer index, `srcLocal` or `srcKernel`
   sid : Nat          -- identity of the `Arc<Source>`
   pid : Nat          -- remote path id
-  nh : Addr
+  nh : Addr          -- `Nexthop::addr()`
+  ll : Bool          -- the next hop is the `V6LinkLocal` variant (same `addr()`, different `Nexthop`)
   flt : Bool         -- FLAG_FILTERED
   inv : Bool         -- FLAG_NEXTHOP_INVALID
   stale : Bool       -- source.is_stale()
+  llgr : Bool        -- source.is_llgr_stale()
   aid : Nat          -- identity of the attribute `Arc`
   uid : Nat          -- local_path_id
+  lc : Bool          -- LLGR_STALE community present
+  nollgr : Bool      -- NO_LLGR community present
   lp : Nat
+  asl : Nat          -- AS_PATH length
+  org : Nat          -- ORIGIN
   eb : Bool          -- role.prefers_over_ibgp()
   cl : Nat           -- CLUSTER_LIST length
   rid : Nat          -- originator id / router id
@@ -89,15 +95,31 @@ structure Rule where
 /-- `[]` = no import policy installed. -/
 abbrev Policy := List Rule
 
+/-- what an announcement carries besides prefix, path id and next hop address -/
+structure Attrs where
+  lp : Nat
+  cl : Nat
+  rts : List Nat
+  asl : Nat
+  org : Nat
+  lc : Bool        -- LLGR_STALE community
+  nollgr : Bool    -- NO_LLGR community
+  ll : Bool        -- next hop sent as global + link-local pair
+  deriving DecidableEq, Repr
+
 inductive Op where
-  | ins (src : Nat) (p : Pfx) (pid : Nat) (nh : Addr) (lp cl : Nat) (rts : List Nat)
+  | ins (src : Nat) (p : Pfx) (pid : Nat) (nh : Addr) (att : Attrs)
   | rm (src : Nat) (p : Pfx) (pid : Nat)
-  | down (k : Nat)
-  | stale (k : Nat)
-  | purge (k : Nat)
+  | down (k : Nat)       -- unregister_peer(drop all families)
+  | drop (k : Nat)       -- drop_families(all families)
+  | stale (k : Nat)      -- unregister_peer(stale all families)
+  | purge (k : Nat)      -- drop_stale_families
+  | llgr (k : Nat)       -- mark_llgr_stale
+  | lpurge (k : Nat)     -- drop_llgr_stale_families
   | soft (k : Nat)
   | pol (rules : Policy)
   | nh (a : Addr) (reachable : Bool)
+  | undefer (f : Nat)    -- end_deferral_families([f])
   deriving DecidableEq, Repr
 
 structure Vrf where
@@ -106,8 +128,9 @@ structure Vrf where
   deriving DecidableEq, Repr
 
 structure Cfg where
-  rids : List Nat
+  peers : List (Nat × Nat)   -- (router id, role: 0 = eBGP, 1 = iBGP, 2 = iBGP route-reflector client)
   vrfs : List Vrf
+  defer : List Nat           -- families in restarting-speaker deferral from the start
   deriving DecidableEq, Repr
 
 /-- Requests sent through the `KernelHandle` (table 0 = main table). -/
@@ -123,20 +146,27 @@ structure St where
   next : Nat            -- fresh identities
   invalid : List Addr   -- TableManager.nexthop_invalid
   policy : Policy
+  deferring : List Nat  -- families whose `Rib.deferring` is set
   deriving DecidableEq, Repr
 
 -- ---------------------------------------------------------------- ranking (impl Ord for RibEntry)
 
 def b2n (b : Bool) : Nat := if b then 1 else 0
 
-/-- `RibEntry::cmp` on the attributes that vary: higher LOCAL_PREF, eBGP over iBGP,
-    not stale over stale, shorter CLUSTER_LIST, lower router id. -/
+/-- `RibEntry::is_llgr_stale` -/
+def Path.isLl (p : Path) : Bool := p.llgr || p.lc
+
+/-- `RibEntry::cmp`: not LLGR-stale first, higher LOCAL_PREF, shorter AS_PATH, lower ORIGIN, eBGP
+    over iBGP, not stale over stale, shorter CLUSTER_LIST, lower router id. -/
 def cmpPath (e a : Path) : Ordering :=
-  (compare a.lp e.lp).then
+  (compare (b2n e.isLl) (b2n a.isLl)).then
+  ((compare a.lp e.lp).then
+  ((compare e.asl a.asl).then
+  ((compare e.org a.org).then
   ((compare (b2n a.eb) (b2n e.eb)).then
   ((compare (b2n e.stale) (b2n a.stale)).then
   ((compare e.cl a.cl).then
-   (compare e.rid a.rid))))
+   (compare e.rid a.rid)))))))
 
 /-- `entry.cmp(a).is_ge()` -/
 def cmpGe (e a : Path) : Bool := cmpPath e a != .lt
@@ -154,8 +184,8 @@ def sortPaths (l : List Path) : List Path := l.foldl (fun acc p => insertSorted 
 def eligible (l : List Path) : List Path := l.filter (fun p => !p.flt && !p.inv)
 
 /-- `(Arc::as_ptr(source), Arc::as_ptr(attr), nexthop)` of `unfiltered_best()` -/
-def bestKey (l : List Path) : Option (Nat × Nat × Addr) :=
-  (eligible l).head?.map (fun p => (p.sid, p.aid, p.nh))
+def bestKey (l : List Path) : Option (Nat × Nat × Addr × Bool) :=
+  (eligible l).head?.map (fun p => (p.sid, p.aid, p.nh, p.ll))
 
 /-- `unfiltered_best().map(|e| e.path.local_path_id)` -/
 def bestId (l : List Path) : Option Nat := (eligible l).head?.map (·.uid)
@@ -170,7 +200,8 @@ structure Change where
   deriving DecidableEq, Repr
 
 /-- the tuple compared by `NlriChange::ecmp_paths` -/
-def ecmpKey (p : Path) : Nat × Bool × Bool × Nat := (p.lp, p.eb, p.stale, p.cl)
+def ecmpKey (p : Path) : Bool × Nat × Nat × Nat × Bool × Bool × Nat :=
+  (p.isLl, p.lp, p.asl, p.org, p.eb, p.stale, p.cl)
 
 /-- `NlriChange::ecmp_paths` -/
 def ecmpPaths (cur : List Path) : List Path :=
@@ -193,15 +224,16 @@ def bestImports (v : Vrf) (c : Change) : Bool :=
   | some b => canImport v b.rts
   | none => false
 
-/-- FIB part of `TableShard::distribute_update` (with a kernel handle installed). -/
+/-- FIB part of `TableShard::distribute_update` (with a kernel handle installed): the main-table
+    request, and for a VPN prefix one request per VRF with a table: install where the best path is
+    imported, withdraw elsewhere. -/
 def distribute (cfg : Cfg) (c : Change) : List Req :=
   if c.bestChanged || (c.anyChanged && c.paths.head?.isSome) then
     Req.apply 0 c.pfx (changeNhs c) ::
       (if c.pfx.isVpn then
         cfg.vrfs.filterMap (fun v =>
           if v.tid == 0 then none
-          else if (changeNhs c).isEmpty || bestImports v c
-          then some (Req.apply v.tid c.pfx.local (changeNhs c)) else none)
+          else some (Req.apply v.tid c.pfx.local (if bestImports v c then changeNhs c else [])))
       else [])
   else []
 
@@ -229,6 +261,17 @@ def applyImport : Policy → Nat → Addr → Bool × Addr
         | .rej => (true, nh)
         | .acc => (false, nh)
       else applyImport rs src nh
+
+/-- the deciding statement rewrites the next hop (`NexthopAction::Address` yields a plain `V4`/`V6`
+    next hop, never the link-local pair) -/
+def importSets : Policy → Nat → Addr → Bool
+  | [], _, _ => false
+  | r :: rs, src, nh =>
+      if condMatch r.cond src nh then
+        match r.act with
+        | .set _ => true
+        | _ => false
+      else importSets rs src nh
 
 -- ---------------------------------------------------------------- table functions on one destination
 
@@ -298,16 +341,44 @@ def dropPaths (pfx : Pfx) (paths : List Path) (sel : Path → Bool) :
     else if rest.isEmpty then (rest, some ⟨pfx, true, true, []⟩, nhs)
     else (rest, some (mkChange pfx (oldId != bestId rest) true rest), nhs)
 
-/-- one destination of `Table::restale` -/
-def restalePaths (pfx : Pfx) (paths : List Path) (k : Nat) : List Path × Option Change :=
+/-- one destination of `Table::restale` (`mark` sets the stale flag) / `Table::restale_llgr`
+    (`mark` sets the LLGR-stale flag) -/
+def restalePaths (pfx : Pfx) (paths : List Path) (k : Nat) (mark : Path → Path) : List Path × Option Change :=
   if !paths.any (fromAddr k) then (paths, none)
   else
     let oldId := bestId paths
     let anyUnf := paths.any (fun e => fromAddr k e && !e.flt)
-    let marked := paths.map (fun e => if fromAddr k e then { e with stale := true } else e)
+    let marked := paths.map (fun e => if fromAddr k e then mark e else e)
     let sorted := sortPaths marked
     let bc := oldId != bestId sorted
     (sorted, if bc || anyUnf then some (mkChange pfx bc anyUnf sorted) else none)
+
+def markStale (e : Path) : Path := { e with stale := true }
+def markLlgr (e : Path) : Path := { e with llgr := true }
+
+def headFrom (k : Nat) (cur : List Path) : Bool :=
+  match cur.head? with
+  | some b => fromAddr k b
+  | none => false
+
+/-- the changes `Table::restale_llgr` reports for a re-sorted destination: as `restale`, but a best
+    path of the peer that keeps its rank also counts as a changed best, and every eligible path of
+    the peer is reported as replaced in a change of its own (all carrying the same path list). -/
+def llgrChanges (pfx : Pfx) (oldId : Option Nat) (anyUnf : Bool) (sorted : List Path) (k : Nat) : List Change :=
+  let cur := eligible sorted
+  let bc := oldId != bestId sorted || headFrom k cur
+  if !(bc || anyUnf) then []
+  else
+    let n := (cur.filter (fromAddr k)).length
+    if n == 0 then [⟨pfx, bc, anyUnf, cur⟩]
+    else (List.range n).map (fun i => ⟨pfx, bc && i == 0, true, cur⟩)
+
+/-- one destination of `Table::restale_llgr` -/
+def restaleLlgrPaths (pfx : Pfx) (paths : List Path) (k : Nat) : List Path × List Change :=
+  if !paths.any (fromAddr k) then (paths, [])
+  else
+    let sorted := sortPaths (paths.map (fun e => if fromAddr k e then markLlgr e else e))
+    (sorted, llgrChanges pfx (bestId paths) (paths.any (fun e => fromAddr k e && !e.flt)) sorted k)
 
 /-- one destination of `Table::update_nexthop_validity` -/
 def validityPaths (pfx : Pfx) (paths : List Path) (a : Addr) (reachable : Bool) :
@@ -343,130 +414,175 @@ def trav (f : Pfx → List Path → List Path × List Req) : List Dest → List 
 
 -- ---------------------------------------------------------------- TableManager operations
 
-def ridOf (cfg : Cfg) (src : Nat) : Nat := if isPeer src then (cfg.rids[src]?).getD 0 else 0
+def ridOf (cfg : Cfg) (src : Nat) : Nat := if isPeer src then ((cfg.peers[src]?).map (·.1)).getD 0 else 0
+/-- `role.prefers_over_ibgp()`: eBGP peers only (the local and kernel sources are iBGP) -/
+def ebOf (cfg : Cfg) (src : Nat) : Bool := isPeer src && ((cfg.peers[src]?).map (·.2)).getD 0 == 0
 def sidOf (st : St) (src : Nat) : Nat :=
   if src == srcLocal then 0 else if src == srcKernel then 1 else (st.cur[src]?).getD 0
-def validSrc (cfg : Cfg) (src : Nat) : Bool := src == srcLocal || src == srcKernel || src < cfg.rids.length
+def validSrc (cfg : Cfg) (src : Nat) : Bool := src == srcLocal || src == srcKernel || src < cfg.peers.length
 
 def distOpt (cfg : Cfg) : Option Change → List Req
   | some c => distribute cfg c
   | none => []
 
+/-- while the family is deferring (`Rib.deferring`) the table functions report no change -/
+def distD (cfg : Cfg) (dfr : Bool) (ch : Option Change) : List Req := if dfr then [] else distOpt cfg ch
+
+def dfrOf (deferring : List Nat) (p : Pfx) : Bool := deferring.contains p.fam
+
 /-- `TableManager::insert_route` on the destination of the prefix. -/
-def insertDest (cfg : Cfg) (policy : Policy) (invalid : List Addr) (p : Pfx) (paths : List Path)
-    (src sid pid : Nat) (nh0 : Addr) (lp cl : Nat) (rts : List Nat) (fresh : Nat) : List Path × List Req :=
+def insertDest (cfg : Cfg) (dfr : Bool) (policy : Policy) (invalid : List Addr) (p : Pfx) (paths : List Path)
+    (src sid pid : Nat) (nh0 : Addr) (att : Attrs) (fresh : Nat) : List Path × List Req :=
   let oldNh := lookupNexthop paths src pid
   let pr := applyImport policy src nh0
-  let e : Path := { src := src, sid := sid, pid := pid, nh := pr.2, flt := pr.1,
-                    inv := invalid.contains pr.2, stale := false, aid := fresh, uid := fresh + 1,
-                    lp := lp, eb := isPeer src, cl := cl, rid := ridOf cfg src, rts := rts }
+  let e : Path := { src := src, sid := sid, pid := pid, nh := pr.2, ll := att.ll && !importSets policy src nh0, flt := pr.1,
+                    inv := invalid.contains pr.2, stale := false, llgr := false, aid := fresh, uid := fresh + 1,
+                    lc := att.lc, nollgr := att.nollgr, lp := att.lp, asl := att.asl, org := att.org,
+                    eb := ebOf cfg src, cl := att.cl, rid := ridOf cfg src, rts := att.rts }
   let r := insertPaths p paths e
-  (r.1, nhtRegister src pr.2 oldNh ++ distOpt cfg r.2)
+  (r.1, nhtRegister src pr.2 oldNh ++ distD cfg dfr r.2)
 
-def insertRoute (cfg : Cfg) (st : St) (src : Nat) (p : Pfx) (pid : Nat) (nh0 : Addr)
-    (lp cl : Nat) (rts : List Nat) : St × List Req :=
-  let r := insertDest cfg st.policy st.invalid p (lookupDest st.dests p) src (sidOf st src) pid nh0 lp cl rts st.next
+def insertRoute (cfg : Cfg) (st : St) (src : Nat) (p : Pfx) (pid : Nat) (nh0 : Addr) (att : Attrs) : St × List Req :=
+  let r := insertDest cfg (dfrOf st.deferring p) st.policy st.invalid p (lookupDest st.dests p) src (sidOf st src)
+    pid nh0 att st.next
   ({ st with dests := setDest st.dests p r.1, next := st.next + 2 }, r.2)
 
 /-- `TableManager::remove_route` on the destination of the prefix. -/
-def removeDest (cfg : Cfg) (p : Pfx) (paths : List Path) (src pid : Nat) : List Path × List Req :=
+def removeDest (cfg : Cfg) (dfr : Bool) (p : Pfx) (paths : List Path) (src pid : Nat) : List Path × List Req :=
   match removePaths p paths src pid with
   | none => (paths, [])
   | some (rest, ch, oldNh) =>
-    (rest, distOpt cfg ch ++ (if isPeer src then [Req.unreg oldNh] else []))
+    (rest, distD cfg dfr ch ++ (if isPeer src then [Req.unreg oldNh] else []))
 
 def removeRoute (cfg : Cfg) (st : St) (src : Nat) (p : Pfx) (pid : Nat) : St × List Req :=
-  let r := removeDest cfg p (lookupDest st.dests p) src pid
+  let r := removeDest cfg (dfrOf st.deferring p) p (lookupDest st.dests p) src pid
   ({ st with dests := setDest st.dests p r.1 }, r.2)
 
-/-- `TableShard::disconnected` / `TableShard::drop_stale` on one destination. -/
-def dropDest (cfg : Cfg) (sel : Path → Bool) (p : Pfx) (paths : List Path) : List Path × List Req :=
+/-- `TableShard::disconnected` / `drop_stale` / `drop_llgr_stale` / the `drop_no_llgr` half of
+    `mark_llgr_stale` on one destination. -/
+def dropDest (cfg : Cfg) (deferring : List Nat) (sel : Path → Bool) (p : Pfx) (paths : List Path) :
+    List Path × List Req :=
   let r := dropPaths p paths sel
-  (r.1, distOpt cfg r.2.1 ++ r.2.2.map Req.unreg)
+  (r.1, distD cfg (dfrOf deferring p) r.2.1 ++ r.2.2.map Req.unreg)
 
 /-- `TableShard::mark_stale` on one destination. -/
-def restaleDest (cfg : Cfg) (k : Nat) (p : Pfx) (paths : List Path) : List Path × List Req :=
-  let r := restalePaths p paths k
-  (r.1, distOpt cfg r.2)
+def restaleDest (cfg : Cfg) (deferring : List Nat) (k : Nat) (p : Pfx) (paths : List Path) :
+    List Path × List Req :=
+  let r := restalePaths p paths k markStale
+  (r.1, distD cfg (dfrOf deferring p) r.2)
+
+/-- `TableShard::mark_llgr_stale` on one destination: mark LLGR-stale and re-sort, then delete the
+    paths that carry NO_LLGR. -/
+def llgrDest (cfg : Cfg) (deferring : List Nat) (k : Nat) (p : Pfx) (paths : List Path) : List Path × List Req :=
+  let r1 := restaleLlgrPaths p paths k
+  let q1 := if dfrOf deferring p then [] else r1.2.flatMap (distribute cfg)
+  let r2 := dropDest cfg deferring (fun e => fromAddr k e && e.nollgr) p r1.1
+  (r2.1, q1 ++ r2.2)
 
 /-- `TableManager::update_nexthop_validity` (table part) on one destination. -/
-def validityDest (cfg : Cfg) (a : Addr) (reachable : Bool) (p : Pfx) (paths : List Path) :
+def validityDest (cfg : Cfg) (deferring : List Nat) (a : Addr) (reachable : Bool) (p : Pfx) (paths : List Path) :
     List Path × List Req :=
   let r := validityPaths p paths a reachable
-  (r.1, distOpt cfg r.2)
+  (r.1, distD cfg (dfrOf deferring p) r.2)
 
 /-- One path of `TableShard::soft_reset_in`: re-apply the import policy to the stored path
     (`collect_adj_in_paths` hands over the stored next hop) and re-insert it. -/
-def softOne (cfg : Cfg) (policy : Policy) (invalid : List Addr) (pfx : Pfx)
+def softOne (cfg : Cfg) (dfr : Bool) (policy : Policy) (invalid : List Addr) (pfx : Pfx)
     (paths : List Path) (old : Path) : List Path × List Req :=
   let oldNh := lookupNexthop paths old.src old.pid
   let pr := applyImport policy old.src old.nh
   let nht := if isPeer old.src && oldNh != some pr.2 then
       Req.reg pr.2 :: (match oldNh with | some o => [Req.unreg o] | none => [])
     else []
-  let e : Path := { old with nh := pr.2, flt := pr.1, inv := invalid.contains pr.2 }
+  let e : Path := { old with nh := pr.2, ll := old.ll && !importSets policy old.src old.nh, flt := pr.1, inv := invalid.contains pr.2 }
   let r := insertPaths pfx paths e
-  (r.1, nht ++ distOpt cfg r.2)
+  (r.1, nht ++ distD cfg dfr r.2)
 
-def softPaths (cfg : Cfg) (policy : Policy) (invalid : List Addr) (pfx : Pfx) :
+def softPaths (cfg : Cfg) (dfr : Bool) (policy : Policy) (invalid : List Addr) (pfx : Pfx) :
     List Path → List Path → List Path × List Req
   | [], paths => (paths, [])
   | o :: os, paths =>
-    let r1 := softOne cfg policy invalid pfx paths o
-    let r2 := softPaths cfg policy invalid pfx os r1.1
+    let r1 := softOne cfg dfr policy invalid pfx paths o
+    let r2 := softPaths cfg dfr policy invalid pfx os r1.1
     (r2.1, r1.2 ++ r2.2)
 
 /-- `TableShard::soft_reset_in` on one destination: the non-stale paths of the peer as collected
     before any re-insertion, processed in that order. -/
-def softDest (cfg : Cfg) (policy : Policy) (invalid : List Addr) (k : Nat) (p : Pfx)
+def softDest (cfg : Cfg) (deferring : List Nat) (policy : Policy) (invalid : List Addr) (k : Nat) (p : Pfx)
     (paths : List Path) : List Path × List Req :=
-  softPaths cfg policy invalid p (paths.filter (fun e => fromAddr k e && !e.stale)) paths
+  softPaths cfg (dfrOf deferring p) policy invalid p (paths.filter (fun e => fromAddr k e && !e.stale)) paths
+
+/-- `TableShard::end_deferral` on one destination of the released family: `collect_loc_rib_paths`
+    reports every destination that has an eligible path as changed. -/
+def undeferDest (cfg : Cfg) (f : Nat) (p : Pfx) (paths : List Path) : List Path × List Req :=
+  (paths, if p.fam == f && !(eligible paths).isEmpty then distribute cfg ⟨p, true, true, eligible paths⟩ else [])
 
 def setCur (cur : List Nat) (k v : Nat) : List Nat := cur.set k v
 
+def Attrs.wf (a : Attrs) : Bool :=
+  a.lp ≤ 1000 && a.cl ≤ 1 && a.rts.all (· ≤ 1000) && a.asl ≤ 3 && a.org ≤ 2
+
 /-- An op is well formed when the harness can execute it (otherwise both sides answer `(bad-case)`). -/
 def Op.wf (cfg : Cfg) : Op → Bool
-  | .ins src p pid nx lp cl rts =>
-      validSrc cfg src && p.fam ≤ 2 && p.id ≤ 250 && pid ≤ 1000 && nx < 200 && lp ≤ 1000 && cl ≤ 1 &&
-      rts.all (· ≤ 1000)
-  | .rm src p pid => validSrc cfg src && p.fam ≤ 2 && p.id ≤ 250 && pid ≤ 1000
-  | .down k | .stale k | .purge k | .soft k => k < cfg.rids.length
+  | .ins src p pid nx att =>
+      validSrc cfg src && p.fam ≤ 3 && p.id ≤ 250 && pid ≤ 1000 && nx < 200 && att.wf && (!att.ll || 100 ≤ nx)
+  | .rm src p pid => validSrc cfg src && p.fam ≤ 3 && p.id ≤ 250 && pid ≤ 1000
+  | .down k | .drop k | .stale k | .purge k | .llgr k | .lpurge k | .soft k => k < cfg.peers.length
   | .pol rules => rules.all (fun r =>
       (match r.cond with | .any => true | .peer k => k < 8 | .nh a => a < 200) &&
       (match r.act with | .set a => a < 200 | _ => true))
   | .nh a _ => a < 200
+  | .undefer f => f ≤ 3
+
+/-- distinct VRFs use distinct kernel tables (table id 0 = no table) -/
+def vrfsDistinct : List Vrf → Bool
+  | [] => true
+  | v :: vs => (v.tid == 0 || vs.all (fun w => w.tid != v.tid)) && vrfsDistinct vs
 
 def Cfg.wf (cfg : Cfg) : Bool :=
-  0 < cfg.rids.length && cfg.rids.length ≤ 8 && cfg.rids.all (· < 4294967296) &&
-  cfg.vrfs.all (fun v => v.tid ≤ 100000 && v.imp.all (· ≤ 1000))
+  0 < cfg.peers.length && cfg.peers.length ≤ 8 && cfg.peers.all (fun p => p.1 < 4294967296 && p.2 ≤ 2) &&
+  cfg.vrfs.all (fun v => v.tid ≤ 100000 && v.imp.all (· ≤ 1000)) && vrfsDistinct cfg.vrfs &&
+  cfg.defer.all (· ≤ 3)
 
 def St.init (cfg : Cfg) : St :=
-  { dests := [], cur := (List.range cfg.rids.length).map (· + 2), next := cfg.rids.length + 2,
-    invalid := [], policy := [] }
+  { dests := [], cur := (List.range cfg.peers.length).map (· + 2), next := cfg.peers.length + 2,
+    invalid := [], policy := [], deferring := cfg.defer }
 
 /-- One history step on the `TableManager`; requests in the order they are sent (up to the
     interleaving of different destinations). -/
 def step (cfg : Cfg) (st : St) : Op → St × List Req
-  | .ins src p pid nh lp cl rts => insertRoute cfg st src p pid nh lp cl rts
+  | .ins src p pid nh att => insertRoute cfg st src p pid nh att
   | .rm src p pid => removeRoute cfg st src p pid
   | .down k =>
-      let r := trav (dropDest cfg (fromAddr k)) st.dests
+      let r := trav (dropDest cfg st.deferring (fromAddr k)) st.dests
       ({ st with dests := r.1, cur := setCur st.cur k st.next, next := st.next + 1 }, r.2)
+  | .drop k =>
+      let r := trav (dropDest cfg st.deferring (fromAddr k)) st.dests
+      ({ st with dests := r.1 }, r.2)
   | .stale k =>
-      let r := trav (restaleDest cfg k) st.dests
+      let r := trav (restaleDest cfg st.deferring k) st.dests
       ({ st with dests := r.1, cur := setCur st.cur k st.next, next := st.next + 1 }, r.2)
   | .purge k =>
-      let r := trav (dropDest cfg (fun e => fromAddr k e && e.stale)) st.dests
+      let r := trav (dropDest cfg st.deferring (fun e => fromAddr k e && e.stale)) st.dests
+      ({ st with dests := r.1 }, r.2)
+  | .llgr k =>
+      let r := trav (llgrDest cfg st.deferring k) st.dests
+      ({ st with dests := r.1, cur := setCur st.cur k st.next, next := st.next + 1 }, r.2)
+  | .lpurge k =>
+      let r := trav (dropDest cfg st.deferring (fun e => fromAddr k e && e.llgr)) st.dests
       ({ st with dests := r.1 }, r.2)
   | .soft k =>
-      let r := trav (softDest cfg st.policy st.invalid k) st.dests
+      let r := trav (softDest cfg st.deferring st.policy st.invalid k) st.dests
       ({ st with dests := r.1 }, r.2)
   | .pol rules => ({ st with policy := rules }, [])
   | .nh a reachable =>
       let invalid := if reachable then st.invalid.filter (· != a)
                      else if st.invalid.contains a then st.invalid else a :: st.invalid
-      let r := trav (validityDest cfg a reachable) st.dests
+      let r := trav (validityDest cfg st.deferring a reachable) st.dests
       ({ st with dests := r.1, invalid := invalid }, r.2)
+  | .undefer f =>
+      let r := trav (undeferDest cfg f) st.dests
+      ({ st with dests := r.1, deferring := st.deferring.filter (· != f) }, r.2)
 
 /-- The run: after every op, the requests it caused and the table contents. -/
 def runFrom (cfg : Cfg) : St → List Op → List (List Req × List Dest)
@@ -507,6 +623,23 @@ def svcRun : Watched → List (Bool × Addr) → List Bool × Watched
       (e :: es, wf)
   | w, (false, a) :: rs =>
       let (es, wf) := svcRun (svcUnregister w a) rs
+      (false :: es, wf)
+
+/-- Service run over register / unregister requests and route events (`none`).  A route event makes
+    the loop look every watched address up again and emit a NexthopUpdate for those whose answer
+    changed; the answers of the kernel are not modelled and are taken not to change, so nothing is
+    emitted and the map stays. -/
+def svcRunE : Watched → List (Option (Bool × Addr)) → List Bool × Watched
+  | w, [] => ([], w)
+  | w, none :: rs =>
+      let (es, wf) := svcRunE w rs
+      (false :: es, wf)
+  | w, some (true, a) :: rs =>
+      let (w', e) := svcRegister w a
+      let (es, wf) := svcRunE w' rs
+      (e :: es, wf)
+  | w, some (false, a) :: rs =>
+      let (es, wf) := svcRunE (svcUnregister w a) rs
       (false :: es, wf)
 
 end Rbgp.Fib
